@@ -161,6 +161,54 @@ pub fn run(tier: Tier) -> i32 {
             }
         }
     }
+    // every linking word of the interpreter (and every unknown word-like literal of the current source tree) in the
+    // first part, before and after a number; second parts from the phrase list
+    for l in langs::ALL {
+        let lang = l.facade();
+        let c = vocab::cls(l);
+        let bs = phrases(&alphabet(l, 8), 2);
+        let mut ws: Vec<String> = vocab::linking_words(l).iter().map(|x| x.to_string()).collect();
+        let news: Vec<String> = vocab::new_source_literals(l).into_iter().filter(|w| !w.contains(' ')).collect();
+        ws.extend(news.iter().cloned());
+        for &t in &[0.0, 10.0] {
+            let alone_b: Vec<String> = bs.iter().map(|p| guard(|| replace_numbers_in_text(p, &lang, t)).unwrap_or_else(|e| e)).collect();
+            for w in &ws {
+                for a in [format!("{w} {}", c.unit), format!("{} {w}", c.unit), format!("{} {w} {}", c.ordinary, c.tens), w.clone()] {
+                    let alone_a = guard(|| replace_numbers_in_text(&a, &lang, t)).unwrap_or_else(|e| e);
+                    for (bi, b) in bs.iter().enumerate() {
+                        let s = SEPARATORS[0];
+                        acc.states += 1;
+                        acc.traces += 1;
+                        acc.transitions += 1;
+                        let text = format!("{a}{s}{b}");
+                        let got = guard(|| replace_numbers_in_text(&text, &lang, t)).unwrap_or_else(|e| e);
+                        let want = format!("{alone_a}{s}{}", alone_b[bi]);
+                        if got != want {
+                            ctx.report(&mut acc, Violation { lang: l.code().into(), entry: "replace_text".into(), input: text, threshold: Some(t), clause: "rewrite(A S B, t) = rewrite(A, t) S rewrite(B, t), A built around a linking word".into(), expected: want, observed: got });
+                        }
+                    }
+                }
+            }
+            // two unknown literals, one in each part, the second in front of a number
+            for w1 in &news {
+                for w2 in &news {
+                    for num in [c.unit.clone(), spell::spell(l, 12, Var::default()), c.tens.clone()] {
+                        let a = format!("{} {w1} {}", c.ordinary, c.ordinary);
+                        let b = format!("{w2} {num} {}", c.ordinary);
+                        let s = SEPARATORS[0];
+                        acc.states += 1;
+                        acc.traces += 1;
+                        let text = format!("{a}{s}{b}");
+                        let got = guard(|| replace_numbers_in_text(&text, &lang, t)).unwrap_or_else(|e| e);
+                        let want = format!("{}{s}{}", guard(|| replace_numbers_in_text(&a, &lang, t)).unwrap_or_else(|e| e), guard(|| replace_numbers_in_text(&b, &lang, t)).unwrap_or_else(|e| e));
+                        if got != want {
+                            ctx.report(&mut acc, Violation { lang: l.code().into(), entry: "replace_text".into(), input: text, threshold: Some(t), clause: "rewrite(A S B, t) = rewrite(A, t) S rewrite(B, t), unknown source literals in both parts".into(), expected: want, observed: got });
+                        }
+                    }
+                }
+            }
+        }
+    }
     // long first parts: A = an optional enumeration + N filler words, for every N up to the bound
     let nmax = tier.pick(320usize, 2200usize);
     let mut lshards: Vec<(L, usize, usize)> = vec![];
